@@ -236,7 +236,20 @@ def run_case(case, ctx):
                 xz[k_] = 0.0 if zrng.random() < 0.7 else -0.0
         case = dict(case, x=xz)
         ctx.count('coordinates_exactly_zero')
-    rec = Recorder(make_fun(case))
+    fun_ = make_fun(case)
+    if cls == 'Derivative' and method in ('forward', 'backward') and narrow is None and case['fseed'] % 4 == 1 and not _is_flat(case):
+        # a function that is not defined beyond a nearby edge on the promised side (a square root whose argument runs out): the
+        # larger steps give nan there - and nothing is ever looked up on the other side instead
+        sgn_ = 1.0 if method == 'forward' else -1.0
+        x0_ = np.array(case['x'], dtype=float).reshape(case['shape']) if case['shape'] else float(case['x'][0])
+        edge_ = (1.0 + np.abs(x0_)) * 10.0 ** (-3.0 + 3.0 * ((case['fseed'] // 4) % 7) / 6.0)
+        base_ = fun_
+
+        def fun_(z):
+            with np.errstate(all='ignore'):
+                return base_(z) + np.sqrt(edge_ - sgn_ * (z - x0_))
+        ctx.count('functions_undefined_beyond_an_edge_on_the_promised_side')
+    rec = Recorder(fun_)
     if _is_flat(case):
         ctx.count('functions_even_about_x_or_constant')
     x = np.array(case['x'], dtype=float).reshape(case['shape']) if case['shape'] else float(case['x'][0])
